@@ -1863,3 +1863,101 @@ func ruleJ7(c *Ctx) {
 		c.anchorFail("only %d non-constant writes found in json.encode", n)
 	}
 }
+
+// ---------- I14: float-to-integer conversions are range-guarded ----------
+
+func init() {
+	register("I14", "no float silently becomes a wrong integer: every Go conversion from a floating-point value to an integer type in the value and library packages is dominated by tests that bound the float on both sides (which also excludes NaN), converts a constant, or is a named site; Go's conversion of an out-of-range or NaN float yields an arbitrary integer (the most negative int64 on amd64), so `hour / 1e-30` would be a negative duration instead of an error", 1, ruleI14)
+	claim("C10", "I14")
+	claim("C19", "I14")
+	claim("C20", "I14")
+}
+
+var i14Exceptions = map[string]string{}
+
+func ruleI14(c *Ctx) {
+	n := 0
+	for _, fn := range c.P.Funcs {
+		pk := relPkg(fnPkgPath(fn))
+		if !isProdPkg(fnPkgPath(fn)) || !(pk == "starlark" || strings.HasPrefix(pk, "lib/") || pk == "starlarkstruct") {
+			continue
+		}
+		ord := map[string]int{}
+		eachInstr(fn, func(in ssa.Instruction) {
+			cv, ok := in.(*ssa.Convert)
+			if !ok {
+				return
+			}
+			sb, ok1 := cv.X.Type().Underlying().(*types.Basic)
+			db, ok2 := cv.Type().Underlying().(*types.Basic)
+			if !ok1 || !ok2 || sb.Info()&types.IsFloat == 0 || db.Info()&types.IsInteger == 0 {
+				return
+			}
+			if _, isK := cv.X.(*ssa.Const); isK {
+				return
+			}
+			n++
+			kb := fmt.Sprintf("%s: %s <- float", fnName(fn), typeShort(cv.Type()))
+			ord[kb]++
+			key := kb
+			if ord[kb] > 1 {
+				key = fmt.Sprintf("%s #%d", kb, ord[kb])
+			}
+			pos := c.P.Pos(cv.Pos())
+			// bounded on both sides by dominating float comparisons with constants (or with values derived from MaxInt/MinInt)
+			lower, upper := false, false
+			cands := map[ssa.Value]bool{cv.X: true}
+			// the same float before a Floor/Trunc/Abs
+			if call, ok := cv.X.(*ssa.Call); ok {
+				if cal := call.Call.StaticCallee(); cal != nil && fnPkgPath(cal) == "math" && len(call.Call.Args) == 1 {
+					cands[call.Call.Args[0]] = true
+				}
+			}
+			for d := cv.Block(); d != nil; d = d.Idom() {
+				for _, pc := range pathConds(d) {
+					cond, neg := stripNot(pc.If.Cond)
+					bo, ok := cond.(*ssa.BinOp)
+					if !ok {
+						continue
+					}
+					taken := pc.Branch != neg
+					op := bo.Op
+					var isX bool
+					if cands[bo.X] {
+						isX = true
+					} else if cands[bo.Y] {
+						isX = true
+						op = i9Flip(op)
+					}
+					if !isX {
+						continue
+					}
+					if !taken {
+						op = i9Neg(op)
+					}
+					switch op {
+					case token.LSS, token.LEQ:
+						upper = true
+					case token.GTR, token.GEQ:
+						lower = true
+					}
+				}
+				break
+			}
+			top := fnName(outermost(fn))
+			switch {
+			case lower && upper:
+				c.ok(key, pos, "the float is bounded on both sides by dominating comparisons")
+			case i14Exceptions[key] != "":
+				c.except(key, pos, i14Exceptions[key])
+			case w3Exceptions[top] != "":
+				c.except(key, pos, w3Exceptions[top])
+			default:
+				c.viol(key, pos, fmt.Sprintf("a float is converted to %s without dominating lower and upper bounds: for NaN, infinities and values beyond the integer range Go's conversion yields an arbitrary number instead of an error", typeShort(cv.Type())))
+			}
+		})
+	}
+	if n < 1 {
+		c.anchorFail("only %d float-to-integer conversions found", n)
+	}
+}
